@@ -167,4 +167,13 @@ theorem normalisation_unit_mean_square (n m : ℕ) :
     simp only [normSq, if_neg m0, if_neg m1]
     constructor <;> (push_cast; field_simp)
 
+/-- a 2 × 3 mask (first row and last column: 4 samples, not symmetric, even and odd axis) for the non-vacuity of the coordinate theorems -/
+def exMask : Arr Bool := ⟨2, 3, fun i j => decide (i = 0 ∨ j = 2)⟩
+
+/-- its moments (count 4, row sum 1, column sum 5) and, with the identity as radius function over ℚ, `max(r·mask) = 13/8` about the centroid -/
+theorem exMask_facts : maskMoments exMask = (4, 1, 5) ∧ zRmax (fun x : ℚ => x) exMask (zShift (K := ℚ) exMask) = 13 / 8 := by
+  constructor
+  · decide +kernel
+  · decide +kernel
+
 end Lentil
